@@ -2,6 +2,8 @@
 //! (C01 C02 C03 C04 C05 C06 C15 C16 C19 C20).
 
 mod c03;
+mod c04;
+mod c05;
 mod history;
 mod hooks;
 mod store;
@@ -17,6 +19,8 @@ fn main() {
     match args.prop.as_str() {
         "C01" | "C02" => history::run(&args, &mut rep),
         "C03" => c03::run(&args, &mut rep),
+        "C04" => c04::run(&args, &mut rep),
+        "C05" => c05::run(&args, &mut rep),
         p => rep.inconclusive(format!("vp-store does not serve {p}")),
     }
     if hooks::pause_timeouts() > 0 {
